@@ -453,4 +453,34 @@ def extractMultiBarcode (markers : List Marker) (id : String) (seq : Bytes) (hit
     return [⟨id, seq, [("obimultiplex_error", "No barcode identified")]⟩]
   return rankAll id markers amps.length 0 amps
 
+/-! ## the obimultiplex stage (`pkg/obitools/obimultiplex/demultiplex.go`, `IExtractBarcode`)
+
+The worker (`ExtractMultiBarcodeSliceWorker`) maps every read to its records; then
+* without `--keep-errors` and without `-u`: `FilterOn(HasAttribute("obimultiplex_error").Not())`;
+* with `-u file` (which implies "errors are conserved"): `DivideOn(HasAttribute("obimultiplex_error"))`,
+  the records with the attribute go to the file, the others to the main output;
+* with `--keep-errors` alone: everything goes to the main output. -/
+
+def Annots.get? (a : Annots) (k : String) : Option String :=
+  (a.find? (·.1 == k)).map (·.2)
+
+/-- `obiseq.HasAttribute("obimultiplex_error")` -/
+def Record.hasError (r : Record) : Bool := r.annots.any (·.1 == "obimultiplex_error")
+
+structure Routed where
+  out : List Record
+  unidentified : Option (List Record)     -- `none`: no `-u` option
+
+/-- what `IExtractBarcode` does with the records of the worker -/
+def route (keepErrors unid : Bool) (recs : List Record) : Routed :=
+  if unid then ⟨recs.filter (fun r => !r.hasError), some (recs.filter (·.hasError))⟩
+  else if keepErrors then ⟨recs, none⟩
+  else ⟨recs.filter (fun r => !r.hasError), none⟩
+
+/-- a data set of reads (identifier, sequence, primer hits) through obimultiplex -/
+def obimultiplex (markers : List Marker) (keepErrors unid : Bool)
+    (reads : List (String × Bytes × List Hits)) : R Routed := do
+  let rs ← reads.mapM (fun rd => extractMultiBarcode markers rd.1 rd.2.1 rd.2.2)
+  return route keepErrors unid rs.flatten
+
 end ObiVerif.Demux
